@@ -281,6 +281,7 @@ def token_errors(backend: str, prog) -> List[str]:
     if backend != "cms_miniaod":
         return []
     used = set()
+    handle_of: Dict[str, set] = {}
 
     def walk(b):
         for st in b[2]:
@@ -289,6 +290,10 @@ def token_errors(backend: str, prog) -> List[str]:
                     m = re.search(r"getByToken\((\w+),", str(ln))
                     if m:
                         used.add(m.group(1))
+                        # the handle the token fills: Handle<T> (declared type of the retrieval) needs an EDGetTokenT<T>
+                        h = re.match(r"^(?:edm::)?Handle<(.*)>$", str(st[3]).strip())
+                        if h:
+                            handle_of.setdefault(m.group(1), set()).add(h.group(1).replace(" ", ""))
             elif st[0] == "for":
                 walk(st[3])
             elif st[0] == "if":
@@ -307,6 +312,12 @@ def token_errors(backend: str, prog) -> List[str]:
             out.append(f"token {t} read by getByToken is declared {members.count(t)} time(s) as a class member")
         if t not in inits:
             out.append(f"token {t} read by getByToken is never initialised with consumes<>")
+        mt = [ty for ty, n in prog[0] if n == t and ty.startswith("edm::EDGetTokenT<")]
+        for ty in mt[:1]:
+            tok_t = ty[len("edm::EDGetTokenT<"):-1].replace(" ", "")
+            for ht in sorted(handle_of.get(t, ())):
+                if ht != tok_t:
+                    out.append(f"token {t} is an EDGetTokenT<{tok_t}> but getByToken fills a Handle<{ht}> with it")
     return out
 
 
